@@ -147,5 +147,24 @@ EXTRA_TEXT = {
  'C19': 'A second state machine changes the world between calls (files, directories and symlinks appear and vanish, HOME moves; warm answer vs all caches cleared, and vs two fresh interpreters at the end of each history), 12 scripted transitions (symlink becomes directory, HOME starts to exist, ...) are compared with a fresh interpreter, caller-owned pattern lists are edited in place between calls, and REALPATH/FOLLOW matchers are compared with their pickled / copied twins on paths through symlinks.',
  'C20': 'For half of the texts the plain (non-RAWCHARS) call on the same text is made first in the same process.',
 }
+EXTRA_TEXT2 = {
+ 'C01': 'The posix stream includes code points that the regex engine\'s own classes count in (digits, letters and spaces of other scripts); a leading `!(` under EXTMATCH is answered the same with and without NEGATE / NEGATEALL (str and bytes, every entry point).',
+ 'C03': 'Root, trailing and doubled separators are also written escaped; a dot-spelling table runs `..*`-like patterns with every combination of escaped dots (same answers as the plain spelling, never a special directory under NODOTDIR, glob() returns none without SCANDOTDIR); the exclusion stream puts exclusions first, through SPLIT and alone under NEGATEALL.',
+ 'C04': 'In a fifth of the cases every separator is written escaped; the literal sweep also runs under MATCHBASE with escaped separators and under CASE|IGNORECASE.',
+ 'C05': 'Six ways of calling (glob, iglob, after an inert absolute pattern, after `*`, bytes with dir_fd, descriptor of the parent plus relative root_dir); a quarter of the cases use equivalent spellings (escaped dots, `^` negation, bare `]`).',
+ 'C06': 'globfilter / compile().filter must keep exactly the candidates through symlinked directories that globmatch accepts one by one.',
+ 'C07': 'A raw-split table compares SPLIT texts with the list of their pieces for bars inside bracket expressions (POSIX classes, bare `]`, `^`, escaped separators, Windows rules in path and name mode); the split stream draws such brackets as well.',
+ 'C09': 'The file-system shard has names that differ only in case and passes FORCEWIN / FORCEWIN|FORCEUNIX to the crawler; for strings that contain a separator MATCHBASE must change nothing.',
+ 'C12': 'The literal sweep also runs under IGNORECASE; the root is also given as a descriptor of the parent plus a relative root_dir.',
+ 'C13': 'Inline exclusions stand last or first in the list; NEGATEALL is among the configuration keys.',
+ 'C14': 'Anchoring clause: every piece written with a leading separator gives the result of the unanchored text without MATCHBASE; rerun clause: match() after match() and after a partly consumed imatch() returns the same files and the skipped count of the last run.',
+ 'C15': 'The abort loop is repeated with on_skip returning None and with validation hooks that turn down some files and directories.',
+ 'C16': 'The match() <-> rglob() clauses also ask about paths that run through symlinked directories.',
+ 'C17': 'Relations are also run with NODIR, and over letterless patterns whose ranges cover the letters of one case only.',
+ 'C18': 'A reach sweep runs all subsets of GLOBSTAR / GLOBSTARLONG / FOLLOW / MATCHBASE / DOTGLOB / NODIR over fixed patterns; a WcMatch sweep uses empty, missing and exclusion-only patterns on trees with newline names.',
+ 'C19': 'Every descriptor is also answered alone in a forked child of a fresh interpreter; lists returned by translate() are changed by the caller; after a call refused for the pattern limit the same text must be answered as in a fresh interpreter.',
+}
 for _k, _v in EXTRA_TEXT.items():
+    CHECKS[_k]['text'] = CHECKS[_k]['text'].rstrip() + ' ' + _v
+for _k, _v in EXTRA_TEXT2.items():
     CHECKS[_k]['text'] = CHECKS[_k]['text'].rstrip() + ' ' + _v
